@@ -99,7 +99,8 @@ class ACLObservation(AbstractObservation, discriminator="acl"):
         obs = {}
         acl_items = dict(acl_state.items())
         for i in range(self.num_rules):
-            rule_state = acl_items[i]
+            # an observed position beyond the slots this ACL has can hold no rule: it reads as an empty slot
+            rule_state = acl_items.get(i)
             if rule_state is None:
                 obs[i] = {
                     "position": i,
